@@ -99,7 +99,7 @@ class MergeEngine:
         parallelism=None,
     ):
         if observer is None:
-            observer = observer_mod.repo_observer(observer_mod.null_output)
+            observer = observer_mod.repo_observer(observer_mod.null_output())
         self.observer = observer
         self.mode = mode
         if tempdir is not None:
